@@ -142,10 +142,10 @@ PROPS["C12"] = {
 
 PROPS["C13"] = {
     "parts": [{"family": "lin", "admits": "LinCorr.admits_lin", "model_obs": None, "race": True, "timeout": 900}],
-    "level_text": "placeholder",
-    "level_note": _T,
-    "explanation": "",
-    "assumptions": [],
+    "level_text": "Partial. Proved: for the lock-disciplined store at the granularity of the Go bodies (Merge writes key by key, Keys/GetAll read entry by entry, sync.RWMutex as writer + reader count), for any number of threads, any operation lists and every schedule: C13_linearizable (the timestamped history is Linearizable against an ordinary map in the classic sense: a legal sequential permutation keeping real-time order; the witness is the response order), C13_response_order_legal, C13_race_free (no two threads inside bodies when one writes), and C13_unlocked_not_linearizable / C13_unlocked_racy (the same system without the lock is neither). C13_check_witness_sound: an accepted witness proves Linearizable. Implementation side: every recorded history of 2..6 goroutines over 3 keys, all nine operations plus typed getters, run under the race detector, is judged by that checker inside Coq on a witness proposed by a Go search; histories of <= 7 operations are additionally decided exhaustively by lin_search. Not proved: that the Go accessors take mu as modelled (read from flyt.go:71-161; exercised by the race detector and the history checks only), and the Go memory model itself.",
+    "level_note": _T + " The scheduler is not controlled (no hooks): interleavings inside the store are whatever the Go runtime produces under a start barrier; the theorems cover all schedules of the model, the check samples those of the implementation.",
+    "explanation": "all-schedule invariant proof on the granular lock model (response order is a linearization; mutual exclusion); implementation histories judged by a proved-sound witness checker under -race",
+    "assumptions": ["typed getters are recorded as Get + conversion (conversion is C15)", "values are small naturals; keys k0..k2"],
 }
 
 NOT_APPLICABLE = {}
